@@ -670,6 +670,22 @@ def run_dro(case, ses):
             except Exception as e:
                 val2 = None
                 ses.stats.kinds['call-raises'] = ses.stats.kinds.get('call-raises', 0) + 1
+            # the same for entries / views of a bi-affine ARRAY w*z + x (indexing, reshape, transposition must keep the
+            # expression's meaning - and its class, whose call substitutes the realisation in the affine part too)
+            views = []
+            try:
+                e3 = w * z + x
+                views = [('(w*z + x)[0]', lambda: e3[0], 0), ('(w*z + x)[1:][0]', lambda: e3[1:][0], 1),
+                         ('(w*z + x).reshape((1, 2))[0, 1]', lambda: e3.reshape((1, 2))[0, 1], 1),
+                         ('(w*z + x).reshape((2, 1)).T[0, 0]', lambda: e3.reshape((2, 1)).T[0, 0], 0)]
+            except Exception:
+                ses.stats.kinds['call-raises'] = ses.stats.kinds.get('call-raises', 0) + 1
+            vals3 = []
+            for vn, vf, ent in views:
+                try:
+                    vals3.append((vn, vf()(z.assign(np.array([0.5, -1.0]))), ent))
+                except Exception:
+                    ses.stats.kinds['call-raises'] = ses.stats.kinds.get('call-raises', 0) + 1
             for s in range(ns):
                 rs = rules[s]
                 if isinstance(rs, RoAffine):
@@ -694,6 +710,18 @@ def run_dro(case, ses):
                         report(ses, 'dro.call-biaffine', '%s: (w*z0 + x0)(z=...) in scenario %r %s' % (label, lab[s], bad[1]),
                                dict(k='dro', case=case, seq=seq))
                         break
+                stop = False
+                for vn, v3, ent in vals3:
+                    want3 = [0.5, -1.0][ent] * xs_[w.first] + xs_[x.first + ent]
+                    g3 = v3.loc[lab[s]] if isinstance(v3, pd.Series) else v3
+                    bad = decide_equal(ses, '%s/call3/%s/s%d' % (label, vn, s), g3, want3, 'dro-expression-call')
+                    if bad:
+                        report(ses, 'dro.call-biaffine-view', '%s: %s(z=...) in scenario %r %s' % (label, vn, lab[s], bad[1]),
+                               dict(k='dro', case=case, seq=seq))
+                        stop = True
+                        break
+                if stop:
+                    break
 
 
 # ------------------------------------------------------------------ (f) objective
